@@ -2,7 +2,19 @@ import BreezyVerif.Common
 import BreezyVerif.Driver.C26Lib
 namespace BreezyVerif.C26
 
-/-- `run n cfgs held events` | `kd hostEq isLocalhost userEq pidRecorded pidDead` -/
+def KillRes.show : KillRes → String
+  | .ok => "ok" | .esrch => "ESRCH" | .eperm => "EPERM" | .other => "other"
+
+/-- two real processes on one lock: locker 0 acquires (and is killed if `dead`), locker 1 attempts
+(contention: 6 calls, steal: 11 calls), the surviving holder confirms -/
+def xuidEvs (dead : Bool) : List Ev :=
+  [.start 0 .attempt, .step 0, .step 0, .step 0, .step 0] ++ (if dead then [.crash 0] else []) ++
+  (.start 1 .attempt :: List.replicate 12 (.step 1)) ++ [.start 0 .confirm, .step 0]
+
+/-- `run n cfgs held events` | `kd hostEq isLocalhost userEq pidRecorded pidDead`
+| `kdp hostEq isLocalhost userEq pidRecorded procExists permitted` (the table composed with the errno decision)
+| `pd procExists permitted` → `<kill(pid,0) result> <is_local_pid_dead>`
+| `xuid cfg0 cfg1 dead` → `<result of 1's attempt> <1 is_held> <result of 0's confirm | ->` -/
 def handle : List String → String
   | ["run", n, cfgs, held, evs] =>
     match n.toNat?, (splitList cfgs).mapM parseCfg, parseHeld held, (splitList evs).mapM parseEv with
@@ -13,6 +25,20 @@ def handle : List String → String
     match parseBool a, parseBool b, parseBool c, parseBool d, parseBool e with
     | some a, some b, some c, some d, some e => showBool (knownDead a b c d e)
     | _, _, _, _, _ => "bad-op"
+  | ["kdp", a, b, c, d, e, p] =>
+    match parseBool a, parseBool b, parseBool c, parseBool d, parseBool e, parseBool p with
+    | some a, some b, some c, some d, some e, some p => showBool (knownDead a b c d (pidDeadOf (killZero e p)))
+    | _, _, _, _, _, _ => "bad-op"
+  | ["pd", e, p] =>
+    match parseBool e, parseBool p with
+    | some e, some p => (killZero e p).show ++ " " ++ showBool (pidDeadOf (killZero e p))
+    | _, _ => "bad-op"
+  | ["xuid", c0, c1, dead] =>
+    match parseCfg c0, parseCfg c1, parseBool dead with
+    | some c0, some c1, some dead =>
+      let s := (Sys.init (cfgFun [c0, c1])).run (xuidEvs dead)
+      (s.lk 1).last.show ++ " " ++ showBool (s.lk 1).held ++ " " ++ (if dead then "-" else (s.lk 0).last.show)
+    | _, _, _ => "bad-op"
   | _ => "bad-op"
 
 end BreezyVerif.C26
